@@ -85,6 +85,21 @@ CHECKS = {
   level="model_checking", ref="5 C16",
   text="HttpServer.tla models request assembly across segments, routing by hash to swarm workers, scrape fan-out/merge, the re-used Content-Length digit field and keep-alive; TLC checks WellFramed, InOrder, WorkersInvisible, Isolation for 1-3 swarm workers and rejects the per-worker-truncation and stale-digit variants; running trackers (socket x swarm workers, keep-alive on/off) are driven by concurrent connections with requests split at byte offsets, and TLC infers a linearization that explains every reply.",
   note="Pipelining and TLS are outside the statement/exercise; multi-hash scrapes are issued at quiescence. " + TB),
+ "C17": dict(
+  technique="TLC model checking of WsServer.tla (meshes, routing by worker and slot key, close) and WsSwarm.tla + black-box trace validation of running trackers",
+  level="model_checking", ref="5 C17",
+  text="WsServer.tla models socket workers with colliding slot keys, swarm workers and the three meshes as independent FIFO queues; TLC checks DeliveredOnlyToAddressee and ClosedLeavesNothing (for closes with no announce in flight), rejects routing by slot key only, and exhibits the close-overtakes-announce race when closes are unrestricted. Running trackers (socket x swarm workers, dual-stack listener) are driven by several WebSocket clients one operation at a time; every frame received by any client is logged with the connection it arrived on and validated by TLC against the reference semantics of C08/C09 (addressing, replies, refusals, closed connections leave nothing).",
+  note="Operations are sequential (settle window); the in-flight race is explored on the model only; which socket worker accepts a connection is not observed. Known finding: refusal error frame not delivered. " + TB),
+ "C18": dict(
+  technique="TLC evaluation of Buffers.tla (size functions against mirrored buffer constants, boundary search) + delivery/size binding on running trackers",
+  level="model_checking", ref="5 C18",
+  text="Buffers.tla computes BEP 15 and bencode/HTTP reply and request sizes against the fixed buffers and finds every boundary; TLC prints the grid (defaults, both sides of each boundary, extremes) and the verdict Fits; at each grid point a real tracker is configured, the worst-case swarm built and the worst-case request sent; TLC validates that delivery and reply size are exactly what the model computes. Accepted configurations whose worst-case request is not delivered are reported (all currently listed as known findings with their exact boundary).",
+  note="TLC evaluates a size model over a finite grid (no behaviour search). HTTP scrapes longer than the request buffer are outside the quantifier. " + TB),
+ "C19": dict(
+  technique="TLC model checking of Watchdog.tla + fault enumeration on real tracker processes validated by TLC",
+  level="model_checking", ref="5 C19",
+  text="Watchdog.tla models run()'s tail loop with a discrete clock (workers may die at any time, poll period 5) and TLC checks that a dead worker is noticed within the bound for every death time relative to the poll phase (a 12 s period is rejected). Each fault scenario starts a real tracker process with a fault armed at a named point of one worker kind (panic / return Err / return Ok, at start-up or after N hits, unbindable socket, built-in panic of the HTTP connection task) with 1-2 workers of the kind; fault and return timestamps come from the child's monotonic clock and TLC validates result = error within 10 s.",
+  note="Prometheus worker not built into the harness; fault points are feature-gated hooks. " + TB),
  "C20": dict(
   technique="TLA+ model checking of tally/export invariants (TLC) + trace validation + crash-point enumeration against Export.tla",
   level="model_checking", ref="5 C20",
